@@ -111,6 +111,25 @@ pub(crate) fn park(location: Location) {
     }
 }
 
+/// Blocks the current thread until another thread wakes it with
+/// `thread::Set::wake`. Unlike `park`, this does not look at the thread's
+/// unpark token.
+pub(crate) fn block(location: Location) {
+    let switch = execution(|execution| {
+        let thread = execution.threads.active_id();
+
+        trace!(?thread, "block");
+
+        execution.threads.active_mut().set_blocked(location);
+        execution.threads.active_mut().operation = None;
+        execution.schedule()
+    });
+
+    if switch {
+        Scheduler::switch();
+    }
+}
+
 /// Add an execution branch point.
 fn branch<F, R>(f: F) -> R
 where
